@@ -28,6 +28,8 @@ static ARMED: AtomicBool = AtomicBool::new(false);
 static PLACE: AtomicUsize = AtomicUsize::new(0);
 static FAIL_K: AtomicUsize = AtomicUsize::new(0);
 static FAIL_MIN: AtomicUsize = AtomicUsize::new(0);
+static ZEROED_ONLY: AtomicBool = AtomicBool::new(false);
+static IN_ZEROED: AtomicBool = AtomicBool::new(false);
 static BIG_COUNT: AtomicUsize = AtomicUsize::new(0);
 static FAILED: AtomicUsize = AtomicUsize::new(0);
 
@@ -164,7 +166,10 @@ unsafe impl GlobalAlloc for GAlloc {
     unsafe fn alloc(&self, layout: Layout) -> *mut u8 {
         if ARMED.load(Relaxed) {
             let k = FAIL_K.load(Relaxed);
-            if layout.size() >= FAIL_MIN.load(Relaxed) && FAIL_MIN.load(Relaxed) != 0 {
+            if layout.size() >= FAIL_MIN.load(Relaxed)
+                && FAIL_MIN.load(Relaxed) != 0
+                && (!ZEROED_ONLY.load(Relaxed) || IN_ZEROED.load(Relaxed))
+            {
                 let c = BIG_COUNT.fetch_add(1, Relaxed) + 1;
                 if layout.size() > MAX_REQ.load(Relaxed) {
                     MAX_REQ.store(layout.size(), Relaxed);
@@ -187,7 +192,9 @@ unsafe impl GlobalAlloc for GAlloc {
     }
 
     unsafe fn alloc_zeroed(&self, layout: Layout) -> *mut u8 {
+        IN_ZEROED.store(true, Relaxed);
         let p = self.alloc(layout);
+        IN_ZEROED.store(false, Relaxed);
         if !p.is_null() {
             std::ptr::write_bytes(p, 0, layout.size());
         }
@@ -227,12 +234,16 @@ pub struct Arm {
     pub fail_k: usize,
     /// requests of at least this many bytes are counted as "large"; 0 = do not count
     pub fail_min: usize,
+    /// only `alloc_zeroed` requests are candidates (hpbf uses it for the tape and the
+    /// interpreter context and for nothing else)
+    pub zeroed_only: bool,
 }
 
 pub fn arm(a: Arm) {
     PLACE.store(a.place, Relaxed);
     FAIL_K.store(a.fail_k, Relaxed);
     FAIL_MIN.store(a.fail_min, Relaxed);
+    ZEROED_ONLY.store(a.zeroed_only, Relaxed);
     BIG_COUNT.store(0, Relaxed);
     FAILED.store(0, Relaxed);
     MAX_REQ.store(0, Relaxed);
